@@ -29,6 +29,7 @@ import time
 from bounded import grammars as G
 from bounded import specpeg as S
 from bounded.common import JOBS, Budget, bitem, chunked, pmap
+from vlib.runner import Item
 
 PROP = 'C01'
 TOP = 'top_'
@@ -570,7 +571,11 @@ def run(tier='quick', seed=0, info=None):
     sample = []
 
     def go(name, descs, plan, **kw):
-        if budget.left() <= 0 or ('budget' in kw and kw['budget'].left() <= 0):
+        if tier != 'quick' and (budget.left() <= 0 or ('budget' in kw and kw['budget'].left() <= 0)):
+            # never silently: a sub-domain that was not run is undecided
+            items.append(Item(id=f'{PROP}/B:{name}', kind='B', status='undecided', function=FUNCTION,
+                              note=f'bounded: {name} NOT RUN (time budget of the thorough tier used up)',
+                              detail='time budget', extra={'domain': kw.get('domain', ''), 'cases': 0}))
             summary.append((name + ' (NOT RUN: time budget)', new_stats(), 0.0))
             return
         descs = list(descs)
